@@ -117,12 +117,17 @@ Keep(c, a, m, n, sh, u) ==
       /\ \/ Sample >= 10
          \/ /\ Rank(sh, ShapeIdx) = (Rank(c, CfgIds) + 2 * Rank(a, AeadIds) + Sample) % Cardinality(ShapeIdx)
             /\ Rank(u, UsageIdx) = (Rank(c, CfgIds) + 3 * Rank(m, MaxLens) + Sample) % Cardinality(UsageIdx)
-\* quick tier: the cookie length of a HelloRetryRequest tied to the Latin square as well (every length with every ID and HRR group)
-KeepCookie(c, a, sv) == \/ Sample >= 10
-                        \/ ~SrvSendsHRR(sv)
-                        \/ Rank(sv.cookie, CookieLens) = (Rank(c, CfgIds) + 3 * Rank(a, AeadIds) + Sample) % Cardinality(CookieLens)
+\* the cookie of a HelloRetryRequest.  quick: its length tied to the Latin square as well (every length with every ID and HRR group);
+\* thorough: without cookie the full product as above; each cookie length with every ID x HRR group x usage x certificate x Latin
+\* variant, the list shape tied to the variant
+KeepCookie(q, sv) == \/ Sample = 99
+                     \/ ~SrvSendsHRR(sv)
+                     \/ /\ Sample >= 10
+                        /\ sv.cookie = 0 \/ Rank(q[5], ShapeIdx) = (Rank(q[2], CfgIds) + 2 * Rank(q[3], AeadIds) + Sample) % Cardinality(ShapeIdx)
+                     \/ /\ Sample < 10
+                        /\ Rank(sv.cookie, CookieLens) = (Rank(q[2], CfgIds) + 3 * Rank(q[3], AeadIds) + Sample) % Cardinality(CookieLens)
 Combos(id) == {p \in {q \in NameSets \X CfgIds \X AeadIds \X MaxLens \X ShapeIdx \X UsageIdx : Keep(q[2], q[3], q[4], q[1], q[5], q[6])}
-                     \X ServerVariants(id) : KeepCookie(p[1][2], p[1][3], p[2])}
+                     \X ServerVariants(id) : KeepCookie(p[1], p[2])}
 MkVariant(id, q, sv, ct) == [id |-> id, sname |-> NamePairs[q[1]].s, pubname |-> NamePairs[q[1]].p, cfgid |-> q[2], aead |-> q[3], maxlen |-> q[4],
                              server |-> sv.server, hrr_group |-> sv.hrr_group, nretry |-> sv.nretry, cookie |-> sv.cookie, cert |-> ct,
                              shape |-> ListShapes[q[5]], usage |-> Usages[q[6]]]
